@@ -6,6 +6,7 @@ mod crash;
 mod codec;
 mod store;
 mod world;
+mod invite;
 
 fn main() {
     let args: Vec<String> = std::env::args().collect();
@@ -13,6 +14,7 @@ fn main() {
         Some("store") => store::main(&args[2..]),
         Some("mgr") => mgr::main(&args[2..]),
         Some("world") => world::main(&args[2..]),
+        Some("invite") => invite::main(&args[2..]),
         Some("leak") => leak::main(&args[2..]),
         Some("atrest") => atrest::main(&args[2..]),
         Some("conc") => conc::main(&args[2..]),
